@@ -23,6 +23,7 @@ def no_none_in_checks(rep, ctx, rule, inst, site):
 
 
 def check(rep, model, tier):
+    _doc_defaults(rep, model)
     rep.rule('LIMIT-DEF', 'limit_df == reference for both centrings x start/stop given or omitted x reset_indices: rows with last side >= start*fs (None -> 0) and, when stop is given, '
                           'next side <= stop*fs, in order; with reset_indices every sample_* column shifted by int(fs*start); nothing else changed')
     rep.rule('SIGNAL-DEF', 'limit_signal == reference: samples with times >= start (if given) and times < stop (if given); sig filtered with the mask of the same-length times')
@@ -139,3 +140,8 @@ def check_concat(rep, inst, site, r, want):
                     got.append(f'{sorted(src)}:{lab}')
         rep.violation('LABEL-ORDER', inst, site, expected=[f"{sorted({v[1] for v in dict(t[1]).values() if v[0] == 'col'})}:{[T.show(v) for v in dict(t[1]).values() if v[0] != 'col']}" for t in want],
                       found=got or (T.brief(r, 300) if r else None))
+
+
+def _doc_defaults(rep, model):
+    from . import common as _c
+    _c.doc_defaults(rep, model, ['limit_df', 'limit_signal', 'flatten_dfs'])
